@@ -33,6 +33,11 @@ def validate(v, trace, name):
         for rej in rejects:
             e = evs[rej[0] - 1]
             sig = {"kind": rej[1]}
+            k = rej[0] - 1
+            while k > 0 and evs[k]["ev"] != "Reset":
+                if evs[k].get("percent_in_segment"):
+                    sig["percent_in_a_path_segment"] = True
+                k -= 1
             v.failure(sig, {"event": e, "session_file": f, "line": rej[0]})
     v.cov["traces_validated_against_impl"] += sessions
     return len(distinct)
